@@ -484,6 +484,7 @@ func lowAtLeastOneRec(low ssa.Value, fn *ssa.Function, body map[*ssa.BasicBlock]
 	}
 	// every term of the sum is a constant, a guarded Index-like search, or a value that is never negative
 	okTerms := true
+	minus := 0
 	var walk func(v ssa.Value, d int)
 	walk = func(v ssa.Value, d int) {
 		if d > 8 {
@@ -513,8 +514,26 @@ func lowAtLeastOneRec(low ssa.Value, fn *ssa.Function, body map[*ssa.BasicBlock]
 					}
 				}
 				if !guarded {
-					okTerms = false
+					minus++ // a failed search gives -1, never less
 				}
+				return
+			}
+		}
+		// the position of the loop form `for i := strings.Index(s, x); i >= 0; i = strings.Index(s, x)`: a join of searches
+		if ph, ok := v.(*ssa.Phi); ok && len(ph.Edges) > 0 {
+			all := true
+			for _, e := range ph.Edges {
+				call, ok := e.(*ssa.Call)
+				if !ok {
+					all = false
+					break
+				}
+				if name := calleeFullName(&call.Call); !strings.HasPrefix(name, "strings.Index") && !strings.HasPrefix(name, "bytes.Index") {
+					all = false
+				}
+			}
+			if all {
+				minus++
 				return
 			}
 		}
@@ -523,7 +542,7 @@ func lowAtLeastOneRec(low ssa.Value, fn *ssa.Function, body map[*ssa.BasicBlock]
 		}
 	}
 	walk(low, 0)
-	return okTerms
+	return okTerms && lf["1"]-minus >= 1
 }
 
 // suffixResult: result idx of the call is a strict suffix of the argument that is ph, on every return path of the callee.
